@@ -162,7 +162,7 @@ def generate(ctx):
              'two': ctx.pick(120, 1500), 'big': ctx.pick(3, 30), 'empty': 1}
     for case in _generate(ctx):
         yield case
-        if case['n'] == 0:
+        if case['n'] == 0 or case['fam'] == 'long':
             continue
         # small arrangements are many: take them with a probability that favours the larger ones
         p = {'chains': 0.03 if case['n'] >= 6 else 0.3, 'ring': 0.15, 'mix': 0.5, 'edited': 0.2, 'two': 0.25, 'big': 0.3}[case['fam']]
@@ -306,6 +306,13 @@ def _generate(ctx):
                 sorts.append([list(range(n)), rel, ph])
                 sorts.append([list(order), rel, ph])
         yield {'n': n, 'chains': arrangement(), 'rings': [], 'chains_b': arrangement(), 'schema': sch, 'fam': 'two', 'sorts': sorts}
+    # LONG chains and rings (beyond CPython's default recursion depth): the walk must not be recursive in the chain length
+    for n, ringed in ((1500, False), (1500, True)) + (((4000, False), (3000, True)) if not ctx.quick() else ()):
+        members = list(range(n))
+        order = list(members)
+        rng.fork('long', n).shuffle(order)
+        yield {'n': n, 'chains': [] if ringed else [members], 'rings': [members] if ringed else [], 'fam': 'long',
+               'sorts': [[order, 'R2', 'precedes'], [order, 'R2', 'succeeds']]}
     for i in range(ctx.pick(12, 150)):
         r = rng.fork('big', i)
         n = r.randint(50, ctx.pick(200, 500))
